@@ -345,13 +345,13 @@ Proof.
 Qed.
 
 (* C08, whole runs: any network of integrators with edges, any inputs in an accepted form, any number of steps *)
-Theorem run_inputs_full s vectorize depth T dt dts cutoff udef W inputs x0 :
+Theorem run_inputs_core_full s vectorize depth T dt dts cutoff udef W inputs x0 :
   let d := match dts with Some d => d | None => dt end in
   inputs_guard vectorize T dt inputs = true -> rows_fit T dt d = true -> frame_ok T d = true ->
-  run_inputs s vectorize depth T dt dts cutoff udef W inputs x0 = Rows (spec_run_inputs s T dt dts cutoff udef W inputs x0).
+  run_inputs_core s vectorize depth T dt dts cutoff udef W inputs x0 = Rows (spec_run_inputs s T dt dts cutoff udef W inputs x0).
 Proof.
   intros d Hall Hfit Hok. unfold inputs_guard in Hall.
-  unfold run_inputs.
+  unfold run_inputs_core.
   assert (E2 : forallb (accepted vectorize) inputs = true).
   { rewrite forallb_forall in *. intros inp Hin. specialize (Hall inp Hin). unfold input_ok in Hall.
     apply andb_prop in Hall as [Hall _]. apply andb_prop in Hall as [Hall _]. now apply andb_prop in Hall as [Hall _]. }
@@ -371,6 +371,44 @@ Proof.
   intros t Ht c y. apply step_of_ext. intros c' y'. replace (t + 0) with t by lia.
   now apply (net_rhs_spec vectorize (rnd (T / dt))).
 Qed.
+
+Lemma alen_normalise a : alen (normalise a) = alen a.
+Proof.
+  destruct a as [l|r]; [reflexivity|]. cbn [normalise]. destruct (length (hd [] r) =? 1); [|reflexivity].
+  cbn [alen]. unfold column. now rewrite map_length.
+Qed.
+
+Lemma squeeze_single_multi vectorize inp : 2 <= alen (fst inp) -> squeeze_single vectorize inp = inr inp.
+Proof.
+  intros H. unfold squeeze_single. rewrite <- alen_normalise in H.
+  destruct (normalise (fst inp)) as [[|a [|b l]]|[|a [|b r]]]; cbn in H; try lia; reflexivity.
+Qed.
+
+Lemma squeeze_all_multi vectorize inputs : multi_sample inputs = true -> squeeze_all vectorize inputs = inr inputs.
+Proof.
+  induction inputs as [|inp rest IH]; intros H; [reflexivity|].
+  cbn [multi_sample forallb] in H. apply andb_prop in H as [H1 H2]. cbn [squeeze_all].
+  rewrite squeeze_single_multi by lia. now rewrite (IH H2).
+Qed.
+
+Theorem run_inputs_full s vectorize depth T dt dts cutoff udef W inputs x0 :
+  let d := match dts with Some d => d | None => dt end in
+  multi_sample inputs = true -> inputs_guard vectorize T dt inputs = true -> rows_fit T dt d = true -> frame_ok T d = true ->
+  run_inputs s vectorize depth T dt dts cutoff udef W inputs x0 = Rows (spec_run_inputs s T dt dts cutoff udef W inputs x0).
+Proof.
+  intros d Hm Hg Hfit Hok. unfold run_inputs. rewrite squeeze_all_multi by assumption.
+  now apply run_inputs_core_full.
+Qed.
+
+(* the single-sample class: one step, one sample (inside the contract), loud *)
+Lemma refuted_single_sample :
+  run_inputs Euler true 0 (mkq 1 4) (mkq 1 4) None (mkq 0 1) (mkq 0 1) [[mkq 0 1]] [(A1 [mkq 3 1], [0])] [mkq 1 2] = ErrIndex /\
+  multi_sample [(A1 [mkq 3 1], [0])] = false /\
+  inputs_guard true (mkq 1 4) (mkq 1 4) [(A1 [mkq 3 1], [0])] = true /\
+  outcome_eqb (Rows (spec_run_inputs Euler (mkq 1 4) (mkq 1 4) None (mkq 0 1) (mkq 0 1) [[mkq 0 1]] [(A1 [mkq 3 1], [0])] [mkq 1 2]))
+              (Rows [[mkq 0 1; mkq 1 2]]) = true.
+Proof. repeat split; vm_compute; reflexivity. Qed.
+
 
 (* default rule: a unit without any source keeps the declared default of u; any source replaces it *)
 Theorem base_uncovered udef W inputs i : covered W inputs i = false -> base udef W inputs i = udef.
